@@ -209,6 +209,26 @@ REFACTORS = [
   dict(id="ref:RF18-3", patch="refactors/RF18/patch3.diff", silent=["C33", "C30", "C15", "C09", "C10", "C12"]),
   dict(id="ref:RF18-4", patch="refactors/RF18/patch4.diff", silent=["C33", "C30", "C15", "C09", "C10", "C12"]),
   dict(id="ref:RF18-5", patch="refactors/RF18/patch5.diff", silent=["C33", "C30", "C15", "C09", "C10", "C12"]),
+  dict(id="ref:RF19-1", patch="refactors/RF19/patch1.diff", silent=["C07", "C16", "C17", "C11"]),
+  dict(id="ref:RF19-2", patch="refactors/RF19/patch2.diff", silent=["C07", "C16", "C17", "C11"]),
+  dict(id="ref:RF19-3", patch="refactors/RF19/patch3.diff", silent=["C07", "C16", "C17", "C11"]),
+  dict(id="ref:RF19-4", patch="refactors/RF19/patch4.diff", silent=["C07", "C16", "C17", "C11"]),
+  dict(id="ref:RF19-5", patch="refactors/RF19/patch5.diff", silent=["C07", "C16", "C17", "C11"]),
+  dict(id="ref:RF20-1", patch="refactors/RF20/patch1.diff", silent=["C04", "C19", "C16", "C11"]),
+  dict(id="ref:RF20-2", patch="refactors/RF20/patch2.diff", silent=["C04", "C19", "C16", "C11"]),
+  dict(id="ref:RF20-3", patch="refactors/RF20/patch3.diff", silent=["C04", "C19", "C16", "C11"]),
+  dict(id="ref:RF20-4", patch="refactors/RF20/patch4.diff", silent=["C04", "C19", "C16", "C11"]),
+  dict(id="ref:RF20-5", patch="refactors/RF20/patch5.diff", silent=["C04", "C19", "C16", "C11"]),
+  dict(id="ref:RF21-1", patch="refactors/RF21/patch1.diff", silent=["C27", "C39", "C22", "C32"]),
+  dict(id="ref:RF21-2", patch="refactors/RF21/patch2.diff", silent=["C27", "C39", "C22", "C32"]),
+  dict(id="ref:RF21-3", patch="refactors/RF21/patch3.diff", silent=["C27", "C39", "C22", "C32"]),
+  dict(id="ref:RF21-4", patch="refactors/RF21/patch4.diff", silent=["C27", "C39", "C22", "C32"]),
+  dict(id="ref:RF21-5", patch="refactors/RF21/patch5.diff", silent=["C27", "C39", "C22", "C32"]),
+  dict(id="ref:RF22-1", patch="refactors/RF22/patch1.diff", silent=["C24", "C25", "C11", "C12"]),
+  dict(id="ref:RF22-2", patch="refactors/RF22/patch2.diff", silent=["C24", "C25", "C11", "C12"]),
+  dict(id="ref:RF22-3", patch="refactors/RF22/patch3.diff", silent=["C24", "C25", "C11", "C12"]),
+  dict(id="ref:RF22-4", patch="refactors/RF22/patch4.diff", silent=["C24", "C25", "C11", "C12"]),
+  dict(id="ref:RF22-5", patch="refactors/RF22/patch5.diff", silent=["C24", "C25", "C11", "C12"]),
   dict(id="ref:sig-guard-forms", subs=[sub("support.py", "  if sig >= (1 << State.NSTATE):", "  if not (sig < 2 ** State.NSTATE):", nth=0)], silent=["C15"]),
 ]
 
